@@ -21,7 +21,7 @@ from sim import gen
 from sim.dsl import SiteCounter, msg
 
 from . import generic
-from .common import V
+from .common import V, View
 
 ID = "C42"
 TITLE = "Each run's trace span ends once with that run's outcome"
@@ -92,6 +92,29 @@ def cases(seed, tier):
         c["script"][ci]["settle"] = rng.choice(["idle", 0, 1, "idle"])
         yield c
     yield from generic.engine_side_cases(rng, base, dv, k=3)
+    # a request that arrives while the engine's own end-of-call clean-up is awaiting a device (an asynchronous
+    # stop()): runs the plan left open are closed by that clean-up, after the request changed how the call ends
+    motors = gen.names(base["devices"], "motor", "pmotor")
+    nb = sum(1 for s_ in base["script"][:ci] if s_["do"] == "call")
+    for j in range(2 if motors else 0):
+        c = copy.deepcopy(base)
+        c["variant"] = f"request-during-cleanup-{j}"
+        m = motors[0]
+        c["devices"][m].setdefault("async", {})["stop"] = 0.05
+        plan = c["script"][ci]["plan"]
+        plan[:] = [n_ for n_ in plan if not (n_.get("cmd") == "close_run" and rng.random() < 0.6)]
+        plan.append({"op": "msg", "cmd": "set", "obj": m, "args": [3.0], "kw": {"group": "gx"}, "site": f"x{j}a"})
+        plan.append({"op": "msg", "cmd": "wait", "kw": {"group": "gx"}, "site": f"x{j}b"})
+        if rng.random() < 0.4:
+            plan.append({"op": "raise", "exc": "PlanError", "site": f"x{j}c"})
+        probe = generic.run_case(gen.strip_faults(c))
+        pcalls = [c_ for c_ in View(probe).calls if c_.api == "call"]
+        if probe.aborted or nb >= len(pcalls):
+            continue
+        last = len(pcalls[nb].of("msg"))
+        c["script"][ci]["inject"] = [{"id": "cl", "at": {"msg": last, "plus": rng.choice([2, 3, 4, 5, 6, 8])}, "do": rng.choice(["abort", "abort", "stop", "halt"])}]
+        c["script"][ci]["settle"] = "idle"
+        yield c
 
 
 def check(res):
